@@ -2,7 +2,7 @@ ENGINES = [
     {"name": "csym", "path": "vt/csym.py", "serves_properties": ["C01", "C02", "C03", "C10", "C13", "C14", "C17", "C18"],
      "kind_free_text": "symbolic interpreter of traits/ctraits.c over clang's JSON AST (regenerated from the current source on every run), "
                        "CPython API contracts in vt/capi.py, shared path condition with symx; memory-safety assertions on every path"},
-    {"name": "symx", "path": "vt/symx.py", "serves_properties": ["C01", "C03", "C04", "C05", "C06", "C07", "C08", "C09", "C11", "C12", "C13", "C15", "C17", "C19", "C20"],
+    {"name": "symx", "path": "vt/symx.py", "serves_properties": ["C01", "C03", "C04", "C05", "C06", "C07", "C08", "C09", "C11", "C12", "C16", "C13", "C15", "C17", "C19", "C20"],
      "kind_free_text": "symbolic execution of the real Python code on z3-backed proxies (DFS over decision prefixes by re-execution), "
                        "environment models for built-ins (vt/envmodels.py), concrete replay of every counterexample and one witness per path"},
 ]
@@ -235,4 +235,16 @@ CHECKS["C12"] = dict(
     note="No arithmetic in the code under test: the solver decides list indices and choice feasibility only (exhaustive bounded enumeration, "
          "labelled so). Legacy depends_on properties are outside the property's statement (they go stale with repeated items - observed, "
          "not claimed).")
+CHECKS["C16"] = dict(
+    text="Differential bounded exploration (through the symbolic explorer, list positions symbolic): the same handler is registered through "
+         "on_trait_change with an extended name and through observe with the corresponding expression on one tree-shaped graph (fresh "
+         "object at every insertion); 7 names (Instance, list and dict links with '.' and ':', two-level paths) x handler signatures x "
+         "histories (k=2 quick, 3 thorough) of reassignment (incl. None <-> object), list append/insert/del/setitem/reverse/sort/clear/"
+         "whole-list assignment, dict set/del/mixed update/assignment; after every step every node ever seen is probed: legacy call count "
+         "== observe call count == independent reachability; '.' links report link changes, ':' links do not; removal stops all calls.",
+    design_ref="DESIGN.md section 4 C16", technique="differential bounded exploration through the symbolic explorer with symbolic list indices; third party = independent reachability evaluator",
+    note="No arithmetic, no kernel with equivalence classes in the code under test: the solver decides list indices and choice feasibility "
+         "only - this is an exhaustive bounded enumeration and is labelled so (DESIGN.md named C16 as the first candidate for "
+         "not_applicable; it is kept because the harness turned out free of false alarms). 1- and 2-argument handlers only where the "
+         "legacy API documents them as compatible.")
 NOT_APPLICABLE = {p: NOT_BUILT for p in ["C%02d" % i for i in range(1, 21)]}
